@@ -253,7 +253,7 @@ func GetAttr(v Value, attr Value, args ...Value) (Value, error) {
 		strval := CoerceString(attr)
 		// Unexported fields cannot be read through reflection.
 		if f, ok := r.Type().FieldByName(strval); ok && f.PkgPath == "" {
-			retval = r.FieldByName(strval)
+			retval = fieldByIndex(r, f.Index)
 		}
 		if !retval.IsValid() {
 			var err error
@@ -300,6 +300,22 @@ func GetAttr(v Value, attr Value, args ...Value) (Value, error) {
 		retval = res[0]
 	}
 	return retval.Interface(), nil
+}
+
+// fieldByIndex returns the nested field of the struct v reached by index,
+// like reflect.Value.FieldByIndex, but reports a field promoted through a nil
+// embedded pointer as absent instead of panicking.
+func fieldByIndex(v reflect.Value, index []int) reflect.Value {
+	for i, x := range index {
+		if i > 0 && v.Kind() == reflect.Ptr {
+			if v.IsNil() {
+				return reflect.Value{}
+			}
+			v = v.Elem()
+		}
+		v = v.Field(x)
+	}
+	return v
 }
 
 // convertArg returns val as a reflect.Value usable where the given type is
